@@ -2,7 +2,10 @@
 """Prints the markdown table of seeded changes (seeded/*/meta.json) for DESIGN.md section 9.7."""
 import json, glob, os, re
 rows = []
-for d in sorted(glob.glob(os.path.join(os.path.dirname(os.path.dirname(os.path.abspath(__file__))), "seeded", "C*-[ms]*"))):
+def _nat(d):
+    b = os.path.basename(d); m = re.match(r"(C\d+)-([ms])(\d+)", b)
+    return (m.group(1), m.group(2), int(m.group(3))) if m else (b, "", 0)
+for d in sorted(glob.glob(os.path.join(os.path.dirname(os.path.dirname(os.path.abspath(__file__))), "seeded", "C*-[ms]*")), key=_nat):
     m = json.load(open(d + "/meta.json"))
     notes = m.get("needs_to_manifest", "")
     title = ""
